@@ -399,3 +399,91 @@ def owed_output(ctx):
     else:
         ctx.ok(key, f.loc(starts[0][0]), '%d zero-count test(s); %d path prefixes explored: every Ok return after an exhausted input is under '
                'uncompressed_size == 0 or returns a non-zero count' % (len(starts), npaths))
+
+
+# --------------------------------------------------------------------------- CARRY-SOURCE
+
+def _place_fields(p):
+    return [x.get('n') for x in p['p'] if isinstance(x, dict) and 'f' in x]
+
+
+@rule('CARRY-SOURCE', ['C11'], floor=1)
+def carry_source(ctx):
+    """BCJ2Reader::read keeps the 1-3 bytes of a CALL/JUMP address that a short read split: before refilling a
+    stream buffer it copies them from the decoder's current read position (`decoder.bufs[state]`, as
+    Bcj2Decoder::decode left it) to the start of the buffer, then resets the position. The position used as
+    the source of that copy must be the one decode() left behind: on no path from a decode() call may a store to
+    `decoder.bufs[..]` come before the load that feeds the copy (the copy would read from the reset position,
+    i.e. copy the buffer start onto itself, and the carried bytes are replaced by stale ones)."""
+    F = ctx.facts
+    fs = [f for f in F.fns if f.self_adt and last_seg(f.self_adt) == 'BCJ2Reader' and f.impl and
+          last_seg(f.impl.get('trait')) == 'Read' and f.name == 'read']
+    if not fs:
+        ctx.anchor_missing('<BCJ2Reader as Read>::read')
+        return
+    f = fs[0]
+    key = '%s:carry-copied-from-the-position-decode-left' % f.key
+    dec = {bi for bi, t, c in f.calls() if c.name == 'decode' and 'Bcj2Decoder' in c.path}
+    loads, stores = [], []
+    for bi in sorted(f.reachable):
+        for si, s in enumerate(f.blocks[bi]['stmts']):
+            if s['k'] != 'assign':
+                continue
+            if _place_fields(s['lhs'])[:2] == ['decoder', 'bufs'] and s['lhs']['l'] == 1:
+                stores.append((bi, si))
+            rv = s['rv']
+            if rv['r'] == 'use':
+                p = op_place(rv['o'])
+                if p is not None and p['l'] == 1 and _place_fields(p)[:2] == ['decoder', 'bufs'] and not s['lhs']['p']:
+                    loads.append((bi, si, s['lhs']['l']))
+    # which loads feed a copy inside base.bufs
+    feeding = []
+    for (bi, si, l) in loads:
+        taint = {l}
+        changed = True
+        while changed:
+            changed = False
+            for b in f.reachable:
+                for s in f.blocks[b]['stmts']:
+                    if s['k'] != 'assign' or s['lhs']['p'] or s['lhs']['l'] in taint:
+                        continue
+                    rv = s['rv']
+                    ops = []
+                    if rv['r'] in ('use', 'cast', 'un', 'repeat'):
+                        ops = [rv['o']]
+                    elif rv['r'] == 'bin':
+                        ops = [rv['a'], rv['b']]
+                    elif rv['r'] == 'agg':
+                        ops = rv['ops']
+                    if any((op_place(o) or {}).get('l') in taint for o in ops):
+                        taint.add(s['lhs']['l'])
+                        changed = True
+        for b, t, c in f.calls():
+            if c.name in ('index', 'copy_within', 'copy_from_slice', 'get') and any((op_place(a) or {}).get('l') in taint for a in t['args'][1:]):
+                feeding.append((bi, si))
+                break
+    if not dec or not feeding or not stores:
+        ctx.violation(key, f.loc(0), 'cannot locate the carry copy (decode calls %d, position loads feeding a copy %d, position stores %d): '
+                      'anchor lost (fail closed)' % (len(dec), len(feeding), len(stores)))
+        return
+    bad = None
+    for (lb, ls) in feeding:
+        for (sb, ss) in stores:
+            # store reachable from a decode call without passing another one
+            from_dec = f.reach_from([f.blocks[d]['term']['target'] for d in dec if f.blocks[d]['term'].get('target') is not None], stop=dec)
+            if sb not in from_dec:
+                continue
+            if sb == lb:
+                if ss < ls:
+                    bad = (sb, lb)
+            else:
+                after = f.reach_from(f.succs(sb), stop=dec)
+                if lb in after:
+                    bad = (sb, lb)
+    if bad:
+        ctx.violation(key, f.loc(bad[1]), 'the source position of the carry copy is loaded after `decoder.bufs[..]` was overwritten (store at %s): '
+                      'the carried bytes of a split CALL/JUMP address are copied from the reset position, i.e. replaced by stale bytes; output is '
+                      'silently wrong whenever a CALL/JUMP source returns a byte count that is not a multiple of four' % f.loc(bad[0]))
+    else:
+        ctx.ok(key, f.loc(feeding[0][0]), '%d position load(s) feed the carry copy; no store to decoder.bufs precedes them after decode() (%d store(s), all behind the copy)'
+               % (len(feeding), len(stores)))
